@@ -247,6 +247,14 @@ class C06(vlib.Check):
             self.count("csr-kernel")
             yield {"t": "csr", "bits": bits, "X": csr(rng.randint(1, 5)), "Y": csr(rng.randint(1, 5)), "nojit": rng.random() < 0.5,
                    "a": {"idx": [1]}, "b": {"idx": [1]}, "m": "soergel", "form": "csr"}
+        # very dense rows of a long binary matrix: more than 2^24 bits in common (counts that single-precision arithmetic can no
+        # longer hold exactly), rows given as unions of ranges; every measure has a closed form in |A|, |B|, |A & B| and the length
+        for m in (["tanimoto", "dice", "cosine", "soergel"] if self.tier == "quick" else MEASURES * 2):
+            n1, n2, off = 2 ** 24 + rng.randrange(1, 5000), 2 ** 24 + rng.randrange(1, 5000), rng.randrange(0, 900)
+            extra = rng.randrange(1, 4000)
+            self.count("very-dense-rows")
+            yield {"t": "huge", "m": m, "bits": 2 ** 25, "A": [[0, n1], [2 ** 25 - extra, 2 ** 25]], "B": [[off, off + n2]],
+                   "routes": ["sparse", "db-db"] + (["dense"] if m in BINARY else []), "a": {"idx": [1]}, "b": {"idx": [1]}, "form": "huge"}
         # large unfolded fingerprints: fingerprint forms only
         for _ in range(n // 3):
             ka = rng.choice(KINDS)
@@ -414,6 +422,42 @@ class C06(vlib.Check):
                                         [k for k, f in enumerate(xs) if not f["idx"]], [k for k, f in enumerate(ys) if not f["idx"]])}
         return None
 
+    def _huge_prop(self, case):
+        bits, m = case["bits"], case["m"]
+
+        def size(rs):
+            return sum(e - s_ for s_, e in rs)
+
+        def inter(r1, r2):
+            return sum(max(0, min(e1, e2) - max(s1, s2)) for s1, e1 in r1 for s2, e2 in r2)
+        a, b, c = size(case["A"]), size(case["B"]), inter(case["A"], case["B"])
+        want = {"tanimoto": Fraction(c, a + b - c), "soergel": Fraction(c, a + b - c), "dice": Fraction(2 * c, a + b),
+                "cosine": c / math.sqrt(a * b), "pearson": (bits * c - a * b) / math.sqrt(a * (bits - a) * b * (bits - b))}[m]
+        dt = np.bool_ if m in BINARY else np.float64
+
+        def row(rs):
+            idx = np.concatenate([np.arange(s_, e, dtype=np.int32) for s_, e in rs])
+            return csr_matrix((np.ones(len(idx), dtype=dt), idx, np.array([0, len(idx)], dtype=np.int32)), shape=(1, bits))
+        X, Y = row(case["A"]), row(case["B"])
+        for route in case["routes"]:
+            try:
+                if route == "sparse":
+                    v = getattr(AM, m)(X, Y)
+                elif route == "dense":
+                    v = getattr(AM, m)(X.toarray(), Y.toarray())
+                else:
+                    kind = "bit" if m in BINARY else "float"
+                    dbx = FingerprintDatabase.from_array(X.astype(DTYPE[kind]), ["x"], fp_type=CLS[kind], level=5)
+                    dby = FingerprintDatabase.from_array(Y.astype(DTYPE[kind]), ["y"], fp_type=CLS[kind], level=5)
+                    v = getattr(M, m)(dbx, dby)
+                v = float(np.asarray(v).reshape(-1)[0])
+            except Exception as e:  # noqa: BLE001
+                return {"key": "metric-raises:%s:very-dense-%s:%s" % (m, route, type(e).__name__), "what": "%s on rows of %d and %d on-bits (%s) raised %r" % (m, a, b, route, e)}
+            if not close(v, want):
+                return {"key": "metric-wrong:%s:very-dense-%s" % (m, route),
+                        "what": "%s, %s route: rows with %d and %d on-bits of %d, %d in common: got %r, the definition gives %r" % (m, route, a, b, bits, c, v, float(want))}
+        return None
+
     def _csr_call(self, case):
         def arrs(m):
             return (np.array([float(Fraction(v)) for v in m["data"]], dtype=np.float64), np.array(m["indices"], dtype=np.int32),
@@ -428,7 +472,7 @@ class C06(vlib.Check):
     def impl(self, case):
         if case["t"] == "csr":
             return attempt(lambda: self._csr_call(case))
-        if case["t"] == "matrix":
+        if case["t"] in ("matrix", "huge"):
             return {"ok": "see prop"}
         if case["t"] == "mismatch":
             return attempt(lambda: self._call(case) and "accepted")
@@ -440,7 +484,7 @@ class C06(vlib.Check):
     def model_ops(self, case):
         if case["t"] == "csr":
             return [{"op": "met.csr_soergel", "X": case["X"], "Y": case["Y"]}]
-        if case["t"] == "matrix":
+        if case["t"] in ("matrix", "huge"):
             return [{"op": "fpr.hash", "words": []}]
         a, b, m, form = case["a"], case["b"], case["m"], case["form"]
         if case["t"] == "mismatch":
@@ -499,7 +543,7 @@ class C06(vlib.Check):
         if case["t"] == "csr":
             a = answers[0]
             return {"ok": [[float(Fraction(v)) for v in row] for row in a["ok"]]} if "ok" in a else a
-        if case["t"] == "matrix":
+        if case["t"] in ("matrix", "huge"):
             return {"ok": "see prop"}
         if case["t"] == "mismatch":
             if case["form"] in ("fp-fp", "fp-db", "db-db"):
@@ -519,7 +563,7 @@ class C06(vlib.Check):
                     len(r1) == len(r2) and all(close(x, y, 1e-12) for x, y in zip(r1, r2)) for r1, r2 in zip(a_impl["ok"], a_model["ok"])):
                 return None
             return {"impl": a_impl, "model": a_model}
-        if case["t"] == "matrix":
+        if case["t"] in ("matrix", "huge"):
             return None
         if case["t"] == "mismatch":
             if case["form"] in ("fp-fp", "fp-db", "db-db") and ("err" in a_impl) != ("err" in a_model):
@@ -554,6 +598,8 @@ class C06(vlib.Check):
             return None
         if case["t"] == "matrix":
             return self._matrix_prop(case)
+        if case["t"] == "huge":
+            return self._huge_prop(case)
         a, b, m, form = case["a"], case["b"], case["m"], case["form"]
         if case["t"] == "mismatch":
             r = self.impl(case)
@@ -590,7 +636,7 @@ class C06(vlib.Check):
         return None
 
     def nontrivial(self, case, a_impl):
-        if case["t"] in ("matrix", "csr"):
+        if case["t"] in ("matrix", "csr", "huge"):
             return vlib.canon(case)
         if case["t"] != "metric" or not case["a"]["idx"] or not case["b"]["idx"] or case["a"] == case["b"]:
             return None
